@@ -13,9 +13,10 @@ Definition cvalid (e : env) (c : constr) : Prop :=
   | CsPkh h k s => e_sigok e k s = true /\ bytes_eqb (e_hash160 e k) h = true
   | CsHash kd h p => bytes_eqb (hash_of e kd p) h = true /\ blen p = 32
   | CsAfter t =>
+    e_sequence e <> SEQ_FINAL /\
     Bool.eqb (t <? LOCKTIME_THRESHOLD) (e_locktime e <? LOCKTIME_THRESHOLD) = true /\ t <= e_locktime e
   | CsOlder t =>
-    N.land (e_sequence e) SEQ_DISABLE = 0 /\
+    2 <= e_txversion e /\ N.land (e_sequence e) SEQ_DISABLE = 0 /\
     N.land t SEQ_TYPE = N.land (e_sequence e) SEQ_TYPE /\ N.land t SEQ_MASK <= N.land (e_sequence e) SEQ_MASK
   end.
 
@@ -54,12 +55,14 @@ Section Genuine.
   Qed.
   Lemma g_after t st : good (x_of_ev (evaluate_after e t st)).
   Proof.
-    unfold evaluate_after. destruct (Bool.eqb _ _) eqn:Eu; cbn; [|constructor].
+    unfold evaluate_after. destruct (N.eqb_spec (e_sequence e) SEQ_FINAL) as [Ef|Ef]; cbn; [constructor|].
+    destruct (Bool.eqb _ _) eqn:Eu; cbn; [|constructor].
     destruct (N.leb_spec t (e_locktime e)); cbn; repeat constructor; assumption.
   Qed.
   Lemma g_older t st : good (x_of_ev (evaluate_older e t st)).
   Proof.
-    unfold evaluate_older. destruct (N.eqb_spec (N.land (e_sequence e) SEQ_DISABLE) 0) as [Ed|Ed]; cbn; [|constructor].
+    unfold evaluate_older. destruct (N.ltb_spec (e_txversion e) 2) as [Ev|Ev]; cbn; [constructor|].
+    destruct (N.eqb_spec (N.land (e_sequence e) SEQ_DISABLE) 0) as [Ed|Ed]; cbn; [|constructor].
     destruct (N.eqb_spec (N.land t SEQ_TYPE) (N.land (e_sequence e) SEQ_TYPE)) as [Et|Et]; cbn; [|constructor].
     destruct (N.leb_spec (N.land t SEQ_MASK) (N.land (e_sequence e) SEQ_MASK)); cbn; repeat constructor; assumption.
   Qed.
